@@ -24,7 +24,8 @@ def run(ctx):
         mcs = [("MC_Subs_q_one.cfg", "mc-fixed-1trigger", 900)]
     else:
         mcs = [("MC_Subs_q_one.cfg", "mc-fixed-1trigger", 1800), ("MC_Subs_q_same.cfg", "mc-fixed-same-key-filters", 2400),
-               ("MC_Subs_q_diff.cfg", "mc-fixed-two-triggers-one-connection", 2400), ("MC_Subs_t_events.cfg", "mc-fixed-2events-heartbeat-2nd-source", 3000),
+               ("MC_Subs_q_diff.cfg", "mc-fixed-two-triggers-one-connection", 2400), ("MC_Subs_t_events2.cfg", "mc-fixed-2events", 2400),
+               ("MC_Subs_t_hb.cfg", "mc-fixed-heartbeat-2nd-source-goroutine", 3000),
                ("MC_Subs_live.cfg", "mc-liveness", 2400)]
     pool = ThreadPoolExecutor(max_workers=1)
     mc_future = pool.submit(sc.model_check, ctx, mcs, [("MC_Subs_asis_d5.cfg", ["NoWriteAfterClose"])])
@@ -37,19 +38,31 @@ def run(ctx):
                        cap=700 if quick else None, timeout=1200)
     batches.append(("term", s))
     totals["term"] = n
+    # (a') exhaustive: pure delivery, two events through one trigger with every filter combination; each schedule several times
+    #      (the order in which the code walks its subscriber map is not ours to choose)
+    s, n = sc.generate(ctx, "deliver", sc.gen_cfg("deliver", MaxEvents=2, MaxTerm=0, MaxSrcTerm=0, CfgOK="CfgSame"), rng, timeout=600)
+    rep = []
+    for k in range(4):
+        for x in s:
+            y = dict(x)
+            y["id"] = "%s-r%d" % (x["id"], k)
+            y["kv"] = ["input", "hdr"][k % 2]
+            rep.append(y)
+    batches.append(("deliver", rep))
+    totals["deliver"] = n
     if not quick:
         # (b) exhaustive: the same with one event in flight (update vs removal / completion / flush failure)
-        s, n = sc.generate(ctx, "ev1", sc.gen_cfg("ev1", MaxEvents=1, MaxTerm=1, MaxSrcTerm=1, CfgOK="CfgSame"), rng, cap=12000, timeout=2400)
+        s, n = sc.generate(ctx, "ev1", sc.gen_cfg("ev1", MaxEvents=1, MaxTerm=1, MaxSrcTerm=1, CfgOK="CfgSame"), rng, cap=8000, timeout=2400)
         batches.append(("ev1", s))
         totals["ev1"] = n
     # (c) sampled: 2 events, heartbeat, second source goroutine, flush / heartbeat failures, probes, every configuration
     s, n = sc.generate(ctx, "sim", sc.gen_cfg("sim", MaxEvents=2, MaxTerm=1, MaxSrcTerm=1, MaxHB=1, UseD="TRUE", MaxProbes=1, CfgOK="CfgAll"),
-                       rng, simulate=2600 if quick else 14000, depth=400, timeout=2400, cap=1300 if quick else None)
+                       rng, simulate=2600 if quick else 10000, depth=400, timeout=2400, cap=1300 if quick else None)
     batches.append(("sim", s))
     totals["sim"] = n
     # (d) sampled: the same with 2 client-side terminators (e.g. flush failure + unsubscribe, remove client + shutdown)
     s, n = sc.generate(ctx, "sim2", sc.gen_cfg("sim2", MaxEvents=2, MaxTerm=2, MaxSrcTerm=1, MaxHB=1, UseD="FALSE", MaxProbes=1, CfgOK="CfgNoFilt"),
-                       rng, simulate=800 if quick else 6000, depth=400, timeout=2400, cap=400 if quick else None)
+                       rng, simulate=800 if quick else 4000, depth=400, timeout=2400, cap=400 if quick else None)
     batches.append(("sim2", s))
     totals["sim2"] = n
     # ---- 3./4. replay + validate -------------------------------------------------------------------------------
@@ -72,7 +85,8 @@ def run(ctx):
         "samples": tot["samples"][:3],
         "unrealised_schedules": tot["unreal"],
         "invariants_on_traces": sc.INVS[PROP],
-        "exhaustive": not quick,
+        "exhaustive": False,
+        "exhaustive_families": ["term", "deliver"] if not quick else ["deliver"],
     })
     ctx.assumptions += [
         "schedules are forced at the verif hook points outside the locks and at the harness gates (Flush); code between two events of one goroutine is atomic with respect to the state it touches (hooks sit inside the protecting lock)",
